@@ -2,6 +2,7 @@ package main
 
 import (
 	"fmt"
+	"regexp"
 	"strings"
 )
 
@@ -41,6 +42,11 @@ const schemaSelInline = `description queryType { name } mutationType { name } su
     directives { name description isRepeatable locations args#INC# { ` + inputValueSel + ` } }`
 
 func inc(q, arg string) string { return strings.ReplaceAll(q, "#INC#", arg) }
+
+var fieldWord = regexp.MustCompile(`\b(kind|name|description|specifiedByURL|fields|args|type|isDeprecated|deprecationReason|inputFields|interfaces|enumValues|possibleTypes|ofType|defaultValue)\b`)
+
+// aliased gives every field of a selection on the introspection types the alias a_<field>
+func aliased(sel string) string { return fieldWord.ReplaceAllString(sel, "a_$1: $1") }
 
 type query struct {
 	View string // menu id
@@ -103,11 +109,11 @@ func menu(typeNames []string, pick int) []query {
 		qs = append(qs, query{View: fmt.Sprintf("q.type.var-%v", incl), Root: "type", Name: n, Inc: incl, Prof: "full", Key: "__type", Text: byVarInc,
 			Vars: fmt.Sprintf(`{"n":%s,"inc":%v}`, jsonStr(n), incl), Op: "OneTypeInc"})
 	}
-	// ---- aliased sub-fields (one type per case)
-	{
-		n := typeNames[pick%len(typeNames)]
-		qs = append(qs, query{View: "q.type.alias", Root: "type", Name: n, Inc: false, Prof: "namekind", Key: "__type", Alias: true,
-			Text: `{ __type(name: ` + jsonStr(n) + `) { a_name: name a_kind: kind } }`})
+	// ---- every sub-field aliased (a_<field>: <field>), two types per case
+	for k := 0; k < 2 && k < len(typeNames); k++ {
+		n := typeNames[(pick+1+k*5)%len(typeNames)]
+		qs = append(qs, query{View: "q.type.alias", Root: "type", Name: n, Inc: true, Prof: "full", Key: "__type", Alias: true,
+			Text: `{ __type(name: ` + jsonStr(n) + `) { ` + aliased(inc(fullTypeSel, "(includeDeprecated: true)")) + ` } }`})
 	}
 	return qs
 }
